@@ -137,6 +137,29 @@ def rand_shared_ring(rng, laa):
     return base, [frags]
 
 
+def rand_dotted(rng, laa):
+    """fragments with an internal bond of order 0 ('.' between two atoms / beads of ONE fragment), chains of 2-4 coarse nodes,
+    optionally a second level under the coarse variant (seed C02-11)"""
+    if laa:
+        pool = ['[$][O-].[Na+]', '[$]C(=O)[O-].[Na+]', '[$]C([O-].[Na+])C[$]', '[$]CC[$].[Cl-]', '[$][NH3+].[Cl-]', '[$]CC[$]', '[$]OC[$]',
+                '[$]C[$]', '[Na+].[O-]C[$]']
+    else:
+        pool = ['[$][#a].[#b]', '[$][#a].[#b][$]', '[$][#a]([#c])[$].[#b]', '[$][#c][#d][$]', '[$][#c][$]', '[#b].[#a][$]']
+    n = rng.randint(2, 4)
+    names = ['A', 'B', 'C', 'D'][:rng.randint(1, 3)]
+    dotted = [f for f in pool if '.' in f]
+    frags = {}
+    for i, nm in enumerate(names):
+        frags[nm] = rng.choice(dotted) if i == 0 else rng.choice(pool)
+    base = '{' + ''.join('[#%s]' % rng.choice(names) for _ in range(n)) + '}'
+    if names[0] not in base:
+        base = '{[#%s]' % names[0] + base[1:]
+    blocks = [['#%s=%s' % (nm, f) for nm, f in frags.items()]]
+    if not laa and rng.random() < 0.5:
+        blocks.append(['#a=[$]CC[$]', '#b=[$]O[$]', '#c=[$]C[$]', '#d=[$]N[$]'])
+    return base, blocks
+
+
 class C02(RS.StepProp):
     id = 'C02'
     level = 'proof'
@@ -189,6 +212,13 @@ class C02(RS.StepProp):
                 ('{[#A]1[#B][#C][#D]1}.{#A=CC[!a],#B=[$]OC[$],#C=[$]NC[!b],#D=SC[!a][!b]}', True),
                 ('{[#A]1[#B][#C]1}.{#A=[$][#X][#Y][!a],#B=[$][#P][#Y][!b],#C=[#Q][#Y][!a][!b]}', False),
                 ('{[#A]1[#B][#C]1}.{#A=[$][#X][#Y][!a],#B=[$][#P][#Y][!b],#C=[#Q][#Y][!a][!b]}.{#X=[$]CC,#Y=[$]C[$],#P=[$]O,#Q=[$]N}', True),
+                # a ZERO-ORDER bond INSIDE a fragment ('.' between two atoms / beads of the same fragment: ion pairs): it is an edge
+                # of the fine graph, so it belongs to the coarse node's graph like every other one (seed C02-11)
+                ('{[#A][#OHter]}.{#A=[$]CC[$],#OHter=[$][O-].[Na+]}', True),
+                ('{[#A][#B]}.{#A=[$]CC[$],#B=[$]C(=O)[O-].[Na+]}', True),
+                ('{[#A]|2}.{#A=[$]C([O-].[Na+])C[$]}', True),
+                ('{[#A][#B][#A]}.{#A=[$][#a].[#b][$],#B=[$][#c][$]}', False),
+                ('{[#A][#B]}.{#A=[$][#a].[#b],#B=[$][#c][#d]}.{#a=[$]CC,#b=O,#c=[$]C[$],#d=[$]N}', True),
                 # explicitly written hydrogens that carry their own annotation with a value that reads as "false"
                 # (weight 0 / 0.0) on parents of non-zero weight: the copy keeps the fragment's value (seed C02-8)
                 ('{[#A][#B]}.{#A=C[H;w=0][$],#B=[$]O[H;0]}', True),
@@ -229,6 +259,12 @@ class C02(RS.StepProp):
             laa = rng.random() < 0.6
             base, blocks = rand_shared_ring(rng, laa)
             out.append({'kind': 'step', 's': RS.join_blocks(base, blocks), 'laa': laa, 'legacy': rng.random() < 0.5, 'level': 0})
+        for _ in range(max(3, n // 25)):
+            laa = rng.random() < 0.5
+            base, blocks = rand_dotted(rng, laa)
+            laa2 = laa or len(blocks) > 1
+            for lv in range(len(blocks)):
+                out.append({'kind': 'step', 's': RS.join_blocks(base, blocks), 'laa': laa2, 'legacy': rng.random() < 0.5, 'level': lv})
         for _ in range(n_nx):
             out.append(NX.rand_case(rng))
         # histories: the same kind of input after an unrelated public helper ran in this process (compute_mass on a bare
